@@ -442,6 +442,110 @@ func runC12Client(c c12Case, srv *c12Server, tab map[string][]c12Target) *Violat
 
 // ---- universe -------------------------------------------------------------
 
+// ---- setup on several goroutines at once: servers and clients that share a formatter instance --------------
+
+type c12ConcSetup struct {
+	Formatter string `json:"formatter"` // one of the built-in formatter instances (shared by all builders)
+	Builders  int    `json:"builders"`
+	Rounds    int    `json:"rounds"`
+}
+
+func c12RefName(formatter, ns, m string) string {
+	lower := func(x string) string {
+		if x == "" {
+			return x
+		}
+		return strings.ToLower(x[:1]) + x[1:]
+	}
+	switch formatter {
+	case "ns+lower":
+		return ns + "." + lower(m)
+	case "nons":
+		return m
+	case "nons+lower":
+		return lower(m)
+	}
+	return ns + "." + m
+}
+
+type c12XClient struct {
+	Get    func(int) (int, error)
+	Put    func(string) error
+	Shared func() string
+}
+
+// runC12ConcSetup: every builder registers a handler under its own namespace on its own server and builds its own
+// client, all through the same formatter instance and all at the same time; each must end up with exactly the names
+// the formatter defines for its namespace, on both sides.
+func runC12ConcSetup(c c12ConcSetup) *Violation {
+	f := c12Formatter(c.Formatter)
+	var mu sync.Mutex
+	var first *Violation
+	fail := func(v *Violation) {
+		mu.Lock()
+		if first == nil {
+			first = v
+		}
+		mu.Unlock()
+	}
+	var wg sync.WaitGroup
+	start := make(chan struct{})
+	for b := 0; b < c.Builders; b++ {
+		wg.Add(1)
+		go func(b int) {
+			defer wg.Done()
+			defer func() {
+				if r := recover(); r != nil {
+					fail(violf("setup-panic", "builder %d panicked: %v", b, r))
+				}
+			}()
+			ns := fmt.Sprintf("Namespace%c%d", 'A'+b, b*7+3) + strings.Repeat("x", b)
+			<-start
+			for r := 0; r < c.Rounds; r++ {
+				lg := &c12Log{}
+				rpc := jsonrpc.NewServer(jsonrpc.WithServerMethodNameFormatter(f))
+				rpc.Register(ns, &c12X{reg: ns, log: lg})
+				srv := &c12Server{rpc: rpc, log: lg}
+				for _, m := range c12Methods["X"] {
+					name := c12RefName(c.Formatter, ns, m)
+					resp, runs, v := srv.call(name, goodParams("X", m))
+					if v != nil {
+						fail(v)
+						return
+					}
+					if resp.hasErr || len(runs) != 1 || runs[0] != ns+"/"+m {
+						fail(violf("concurrent-setup-server-name", "builder %d (namespace %q, formatter %s, %d builders at once): method %q is not served under its formatted name: error=%v code=%d ran=%v", b, ns, c.Formatter, c.Builders, name, resp.hasErr, resp.errCode, runs))
+						return
+					}
+				}
+				var cl c12XClient
+				closer, err := jsonrpc.NewCustomClient(ns, []interface{}{&cl}, func(ctx context.Context, body []byte) (io.ReadCloser, error) {
+					var buf bytes.Buffer
+					rpc.HandleRequest(ctx, bytes.NewReader(body), &buf)
+					return io.NopCloser(&buf), nil
+				}, jsonrpc.WithMethodNameFormatter(f))
+				if err != nil {
+					fail(violf("concurrent-setup-client", "builder %d: client construction failed: %v", b, err))
+					return
+				}
+				lg.take()
+				v, gerr := cl.Get(5)
+				perr := cl.Put("s")
+				sh := cl.Shared()
+				runs := lg.take()
+				closer()
+				if gerr != nil || perr != nil || v != 105 || sh != "X" || len(runs) != 3 {
+					fail(violf("concurrent-setup-client-name", "builder %d (namespace %q, formatter %s, %d builders at once): client and server built with the same formatter disagree: Get=(%d,%v) Put=%v Shared=%q ran=%v", b, ns, c.Formatter, c.Builders, v, gerr, perr, sh, runs))
+					return
+				}
+			}
+		}(b)
+	}
+	close(start)
+	wg.Wait()
+	return first
+}
+
 var c12Namespaces = []string{"A", "B", ""}
 
 func c12AllRegSets() [][]c12Reg {
@@ -510,7 +614,7 @@ func c12AliasTables(cfg c12Config) []map[string]string {
 	return tables
 }
 
-const c12Rule = "exhaustive over {A,B,''} namespaces x {none,X,Y,X+Y,Y+X} registrations per namespace x 6 formatters x 5 alias tables x every candidate method string of the universe; arities 0..k+1 and one wrongly typed JSON value per parameter position for every method; client/server agreement (same formatter, rpc_method tag). Non-trivial = >=2 registrations, or an alias involved, or a non-default formatter; distinct by descriptor hash"
+const c12Rule = "exhaustive over {A,B,''} namespaces x {none,X,Y,X+Y,Y+X} registrations per namespace x 6 formatters x 5 alias tables x every candidate method string of the universe; arities 0..k+1 and one wrongly typed JSON value per parameter position for every method; client/server agreement (same formatter, rpc_method tag); 8 goroutines building servers and clients at the same time through one shared built-in formatter instance, each under its own namespace. Non-trivial = >=2 registrations, or an alias involved, or a non-default formatter; distinct by descriptor hash"
 
 func c12NT(c c12Case) (bool, []string) {
 	cl := []string{"kind_" + c.Kind, "fmt_" + c.Config.Formatter}
@@ -538,7 +642,7 @@ func c12NT(c c12Case) (bool, []string) {
 func TestC12(t *testing.T) {
 	rec := NewRec("C12", c12Rule)
 	defer rec.Finish(t)
-	rec.RequireClass("method_is_alias", "alias_shadows_direct", "resolves_none", "resolves_one", "kind_arity", "kind_type", "kind_client", "kind_tag")
+	rec.RequireClass("concurrent_setup", "method_is_alias", "alias_shadows_direct", "resolves_none", "resolves_one", "kind_arity", "kind_type", "kind_client", "kind_tag")
 	names := c12AllNames()
 	regsets := c12AllRegSets()
 	sh, nsh := shard()
@@ -624,6 +728,13 @@ func TestC12(t *testing.T) {
 		}
 	})
 
+	t.Run("concurrent-setup", func(t *testing.T) {
+		for _, fn := range []string{"default", "ns+lower", "nons", "nons+lower"} {
+			c := c12ConcSetup{Formatter: fn, Builders: 8, Rounds: scale(150, 1500)}
+			rec.Run(t, c, true, []string{"concurrent_setup"}, func() *Violation { return runC12ConcSetup(c) })
+		}
+	})
+
 	rec.Rapid(t, "rapid", func(rt *rapid.T) {
 		nreg := rapid.IntRange(1, 5).Draw(rt, "nreg")
 		var regs []c12Reg
@@ -663,6 +774,15 @@ func TestC12(t *testing.T) {
 
 func TestC12Replay(t *testing.T) {
 	Replay(t, "C12", 1, func(raw json.RawMessage) *Violation {
+		var probe map[string]json.RawMessage
+		_ = json.Unmarshal(raw, &probe)
+		if _, ok := probe["builders"]; ok {
+			var c c12ConcSetup
+			if err := json.Unmarshal(raw, &c); err != nil {
+				return nil
+			}
+			return runC12ConcSetup(c)
+		}
 		var c c12Case
 		if err := json.Unmarshal(raw, &c); err != nil {
 			return nil
